@@ -5,6 +5,7 @@ package main
 import (
 	"context"
 	"fmt"
+	"github.com/hashicorp/hcl-lang/reference"
 	"math/rand"
 	"sort"
 
@@ -46,7 +47,13 @@ func runC13(run *Run, replay string) {
 		if bi%2 == 1 {
 			opts.Gen.MaxDepth = 3
 		}
-		for si, sc := range genScenarios(r, opts) {
+		scs := genScenarios(r, opts)
+		if bi%2 == 0 {
+			// the Terraform-like language: references that resolve to collected declarations
+			ts, _ := tfScenario(r)
+			scs = append(scs, ts)
+		}
+		for si, sc := range scs {
 			sc.W.Collect()
 			f := sc.Main.Ctx.Files[sc.File]
 			body, ok := f.Body.(*hclsyntax.Body)
@@ -100,6 +107,34 @@ func runC13(run *Run, replay string) {
 					} else if p.Range.End.Byte > t.Range.Start.Byte {
 						run.Violate(Violation{Key: "C13/overlap/" + string(p.Type) + "+" + string(t.Type), Rule: "tokens are pairwise non-overlapping", Func: "SemanticTokensInFile",
 							Detail: fmt.Sprintf("%s %v overlaps %s %v", p.Type, p.Range, t.Type, t.Range), Replay: locWith(loc, q)})
+					}
+				}
+			}
+			if sc.Kind == "tf" {
+				// every written reference that resolves to a collected declaration has its steps marked
+				starts := map[int]bool{}
+				for _, t := range toks {
+					if t.Type == lang.TokenReferenceStep {
+						starts[t.Range.Start.Byte] = true
+					}
+				}
+				for _, o := range sc.Main.Ctx.ReferenceOrigins {
+					lo, ok := o.(reference.LocalOrigin)
+					if !ok {
+						continue
+					}
+					if _, ok := sc.Main.Ctx.ReferenceTargets.Match(lo); !ok {
+						continue
+					}
+					run.Count("resolving_references")
+					if !starts[lo.Range.Start.Byte] {
+						key := "C13/resolving-reference-without-step-tokens"
+						if anc := ancestorKinds(body, lo.Range); anc != "" {
+							// origin collection falls back to Variables() for expression kinds the token walk does not enter
+							key += "/under-" + anc
+						}
+						run.Violate(Violation{Key: key, Rule: "the steps of references that resolve to a collected target are marked", Func: "SemanticTokensInFile",
+							Detail: fmt.Sprintf("%s at %v resolves but has no reference-step token", lo.Addr.String(), lo.Range), Replay: locWith(loc, q)})
 					}
 				}
 			}
@@ -257,3 +292,45 @@ func bodyLevelRanges(b *hclsyntax.Body, out map[hcl.Range]bool) {
 		}
 	}
 }
+
+// ancestorKinds: the expression kinds around a traversal that only the Variables() fallback of origin
+// collection looks into ("" if none)
+func ancestorKinds(body *hclsyntax.Body, rng hcl.Range) string {
+	var stack []hclsyntax.Node
+	found := ""
+	_ = hclsyntax.Walk(body, walkFuncs{
+		enter: func(n hclsyntax.Node) {
+			stack = append(stack, n)
+			if t, ok := n.(*hclsyntax.ScopeTraversalExpr); ok && t.Range() == rng {
+				for _, a := range stack {
+					switch a.(type) {
+					case *hclsyntax.ForExpr:
+						found = "for-expression"
+					case *hclsyntax.IndexExpr:
+						if found == "" {
+							found = "index-expression"
+						}
+					case *hclsyntax.SplatExpr:
+						if found == "" {
+							found = "splat-expression"
+						}
+					case *hclsyntax.RelativeTraversalExpr:
+						if found == "" {
+							found = "relative-traversal"
+						}
+					}
+				}
+			}
+		},
+		exit: func(n hclsyntax.Node) { stack = stack[:len(stack)-1] },
+	})
+	return found
+}
+
+type walkFuncs struct {
+	enter func(hclsyntax.Node)
+	exit  func(hclsyntax.Node)
+}
+
+func (w walkFuncs) Enter(n hclsyntax.Node) hcl.Diagnostics { w.enter(n); return nil }
+func (w walkFuncs) Exit(n hclsyntax.Node) hcl.Diagnostics  { w.exit(n); return nil }
